@@ -33,6 +33,7 @@ Unused == start = 0 /\ store = <<>> /\ files = <<>> /\ hist = <<>>       \* the 
 ShapesA == {<<2>>, <<3>>, <<2, 2>>, <<2, 3>>, <<1, 3>>}
 ShapesB == ShapesA \cup {<<3, 3>>, <<3, 2>>, <<4>>, <<2, 1, 2>>, <<2, 2, 2>>}
 ShapesW == {<<2, 2>>}
+ShapesQ == {<<3>>, <<2, 2>>, <<1, 3>>}                       \* quick tier
 KernelsA == {<<>>, <<1>>, <<1, 2, 1>>, <<1, 1, 1>>, <<1, 2, 4, 2, 1>>}
 KernelsQ == {<<>>, <<1>>, <<1, 2, 1>>, <<1, 2, 4, 2, 1>>}
 KernelsB == KernelsA \cup {<<1, 3, 1>>, <<1, 0, 2, 0, 1>>, <<1, 1, 2, 3, 2, 1, 1>>}
